@@ -163,8 +163,9 @@ class WriterModel:
 class Execution:
     """One execution of a scenario under one fault plan."""
 
-    def __init__(self, scenario, plan_for_finalise, stats, base):
+    def __init__(self, scenario, plan_for_finalise, stats, base, pre_tree=None):
         self.sc = scenario
+        self.pre_tree = pre_tree
         self.plans = plan_for_finalise      # {finalise ordinal: {event idx: fault}}
         self.stats = stats
         self.base = base
@@ -186,8 +187,9 @@ class Execution:
         for d in self.sc['dirs']:
             os.makedirs(os.path.join(self.root, d), exist_ok=True)
         self.model = WriterModel(self.shadow)
-        for rel, data in self.sc['pre']:
-            data = core.unb64(data)
+        pre = self.pre_tree if self.pre_tree is not None else {rel: core.unb64(data) for rel, data in self.sc['pre']}
+        for rel, data in pre.items():
+            os.makedirs(os.path.dirname(os.path.join(self.root, rel)), exist_ok=True)
             with open(os.path.join(self.root, rel), 'wb') as handle:
                 handle.write(data)
             self.model.fs[rel] = data
@@ -541,6 +543,10 @@ class Execution:
         except StopIteration:
             pass
         finally:
+            try:
+                self.final_tree = self.tree()
+            except Exception:
+                self.final_tree = None
             for real, mod, _ in self.handles.values():
                 for h in (real, mod):
                     try:
@@ -573,7 +579,7 @@ class C07Writer(core.Check):
             'touched a pre-existing file or fired at least one fault')
     probes_expected = ['real_writer_pdb', 'real_writer_gro', 'real_writer_itp', 'xdev_copy_path', 'backup_gap_chosen', 'append_torn_mid_buffer', 'retry_after_error',
                        'crash_between_backup_and_move', 'r_plus_existing', 'reopen_pending', 'relative_after_chdir',
-                       'second_round']
+                       'second_round', 'restart_after_crash']
 
     def budgets(self, tier):
         if tier == 'thorough':
@@ -737,10 +743,48 @@ class C07Writer(core.Check):
             if v2 is not None:
                 stats.nontrivial = True
                 return fail(v2, plans_one, ex2)
+            if ex2.crashed and ex2.final_tree is not None and len(digs) % 3 == 0:
+                # restart: a new process runs the whole history again, fault-free, on the tree the crash left behind;
+                # whatever existed before the first attempt must still exist intact under its own or a backup name
+                ex3 = Execution(scenario, {}, stats, self.base, pre_tree=ex2.final_tree)
+                stats.execs += 1
+                stats.probes['restart_after_crash'] += 1
+                try:
+                    ex3.run()
+                    v3 = None
+                except Violation as v:
+                    v3 = Violation('restart:' + v.invariant, v.expected, v.actual, 'restart:' + v.signature, v.detail)
+                if v3 is None and ex3.final_tree is not None:
+                    v3 = self.originals_survive(scenario, ex3.final_tree)
+                if v3 is not None:
+                    stats.nontrivial = True
+                    return fail(v3, plans_one, ex3)
         run_digest = core.digest([run_digest, digs])
         if plans:
             stats.nontrivial = True
         return result(PASS, events=events, stats=stats.to_json(), run_digest=run_digest)
+
+    @staticmethod
+    def originals_survive(scenario, tree):
+        append_modes = {}
+        for op in scenario['ops']:
+            if op[0] == 'open':
+                append_modes.setdefault(op[2], []).append(op[3])
+        for rel, data in scenario['pre']:
+            old = core.unb64(data)
+            if tree.get(rel) == old:
+                continue
+            isb = backup_names_of(rel)
+            if any(isb(k) and v == old for k, v in tree.items()):
+                continue
+            if any('a' in m for m in append_modes.get(rel, [])):
+                # an append destination keeps the old bytes as a prefix, in place or in the backup made by a later round
+                if (rel in tree and tree[rel].startswith(old)) or any(isb(k) and v.startswith(old) for k, v in tree.items()):
+                    continue
+            return Violation('restart-loses-original', expected=short_tree({rel: old}),
+                             actual=short_tree({k: v for k, v in tree.items() if k == rel or isb(k)}),
+                             detail='after a crash and a fault-free re-run of the history the original file is gone')
+        return None
 
     @staticmethod
     def probe_plan(plans_one, ex, stats):
